@@ -248,3 +248,6 @@ arr!(arr_list_one_number_noskip, false, vec![num_any()]);
 arr!(arr_list_bool_null_skip, true, vec![serde_json::Value::Bool(kani::any()), serde_json::Value::Null]);
 arr!(arr_list_bool_null_noskip, false, vec![serde_json::Value::Bool(kani::any()), serde_json::Value::Null]);
 arr!(hunt_arr_list_int_int_noskip, false, vec![num_i32(), num_i32()]);
+
+// Probed and dropped (DESIGN E21): one-key objects {"VAR?": <number>} etc. A single-entry
+// serde_json::Map (BTreeMap) already gives no answer in 900 s.
